@@ -414,7 +414,16 @@ void types_case(const Case& c) {
         try {
             switch (entry) {
             case 0: Dispatch<FAM>::run(st.begin(), st.end(), cmp); break;
-            case 1: c15::direct<FAM>(n, st.begin(), sn::CS_IfSwap<Cmp>(cmp)); break;
+            case 1:
+                if (n & 1) c15::direct<FAM>(n, st.begin(), sn::CS_IfSwap<Cmp>(cmp));
+                else {
+                    // the compare-exchange object is built from a TEMPORARY comparator that dies before the network
+                    // runs: CS_IfSwap has to own its comparator
+                    sn::CS_IfSwap<Cmp> cs(MK::make(c.rank, c.nkeys, nullptr, c.light));
+                    pbt::label("cswap_from_temporary_comparator");
+                    c15::direct<FAM>(n, st.begin(), cs);
+                }
+                break;
             case 2: c15::direct<FAM>(n, st.begin(), OwnCSwap<Cmp>(cmp)); break;
             default: Dispatch<FAM>::run_default(st.begin(), st.end()); break;
             }
